@@ -107,7 +107,7 @@ def _axang_case():
         st.tuples(st.just('near_pi'), gen.log_uniform(-4, -2).map(lambda d: PI - d)),
         st.tuples(st.just('very_near_pi'), gen.log_uniform(-9, -4).map(lambda d: PI - d)),
         st.tuples(st.just('right'), st.sampled_from([PI/2, PI/3, 1.0, 2.0])))
-    return st.fixed_dictionaries({'axis': gen.axes(), 'ang': angle, 'scale': gen.log_uniform(-3, 3)})
+    return st.fixed_dictionaries({'axis': gen.axes(), 'ang': angle, 'scale': gen.scales()})
 
 
 def eval_axang(case, ctx):
